@@ -258,7 +258,8 @@ open Spectator
 host session and its spectator side by side (`Proofs/HostSpec.lean`), starting from a pair that
 satisfies the invariant (a freshly built host and spectator do: `C06_host_spectator_init`). Run ANY interleaving
 of the host's own steps (local inputs, calls with the game executing them, cell writes, arrivals
-of remote players' inputs), the spectator's `advance_frame` calls, and arrivals at the spectator —
+of remote players' inputs, `set_input_delay` calls of its local players — C11's "and spectators" —),
+the spectator's `advance_frame` calls, and arrivals at the spectator —
 the next row, one the host has already offered to its spectator endpoints, carrying what the
 host's queues hold for that frame (what `C06_host_rows` and `C05_stream_intact` provide for the
 link). Then every row the spectator holds is, player by player, the host's stream of that player
